@@ -295,7 +295,15 @@ class JobProc(SimProc):
         try:
             txt = self.script.read_text()
             locks = re.findall(r"'''(.*?)'''", txt)
-            spath = re.search(r'TaskRunner\("(.*?)"', txt).group(1)
+            m = re.search(r'TaskRunner\("(.*?)"', txt)
+            if m is None or ".run()" not in txt[m.end():]:
+                # a script that was not written completely (its writer was killed): an empty
+                # file does nothing, a truncated one stops with an error; no runner, no body
+                code = 0 if not txt.strip() else 1
+                k.log("runner-broken-script", x=self.x, size=len(txt), code=code)
+                k.count("probe:job-started-from-incomplete-script")
+                return
+            spath = m.group(1)
             k.log("runner-start", x=self.x)
             # interpreter start-up: arbitrary delay (workload knob start_len: a slow start-up spans
             # many scheduling points, e.g. a cold file system)
@@ -330,6 +338,10 @@ class SimPopen:
         w = W
         parent = cur_pid()
         script = command[0]
+        if not os.access(script, os.X_OK):
+            # execve of a file without the executable bit (e.g. a script whose writer died before chmod)
+            w.k.count("probe:exec-of-non-executable-script")
+            raise PermissionError(errno.EACCES, "Permission denied", str(script))
         pid = w.alloc_job_pid()
         jp = JobProc(pid, script, parent)
         jp.x = w.x_of_path(script)
